@@ -182,7 +182,9 @@ def main(argv=None):
             if ctx is not None:
                 short = f["function"].split(".")[-1].split("[")[0]
                 for v in ctx.violations:
-                    if short in v.function:
+                    hist = v.input.get("history") if isinstance(v.input, dict) else None
+                    ops = [op[0] for op in hist if isinstance(op, (list, tuple)) and op] if isinstance(hist, list) else []
+                    if short in v.function or short in ops:
                         witness = v
                         break
             payload = dict(property=prop, kind="deductive-obligation-failed", obligation=f["obligation"],
